@@ -171,10 +171,12 @@ fn gen_sets(prop: &str, tier: &str) -> Vec<ProgSet> {
                     }
                 }
             }
+            writers.push(Program { init: Kind::MS, ops: vec![DepWriteW] });
+            writers.push(Program { init: Kind::MS, ops: vec![DepWriteW, DepWriteW] });
             writers.push(Program { init: Kind::T, ops: vec![WithArcMutW] });
             writers.push(Program { init: Kind::T, ops: vec![WithArcMutW, WithArcMutW] });
-            let readers = |thin: bool| -> Vec<Program> {
-                let ks: Vec<Kind> = if thin { vec![Kind::T, Kind::F] } else { vec![Kind::A, Kind::O, Kind::U2] };
+            let readers = |thin: bool, ms: bool| -> Vec<Program> {
+                let ks: Vec<Kind> = if ms { vec![Kind::MS] } else if thin { vec![Kind::T, Kind::F] } else { vec![Kind::A, Kind::O, Kind::U2] };
                 let mut v = vec![];
                 for k in ks {
                     v.push(Program { init: k, ops: vec![Read, Drop] });
@@ -189,7 +191,7 @@ fn gen_sets(prop: &str, tier: &str) -> Vec<ProgSet> {
             };
             for w in &writers {
                 let thin = matches!(w.init, Kind::T | Kind::F);
-                let rs = readers(thin);
+                let rs = readers(thin, w.init == Kind::MS);
                 let fact = format!("{}=true|{}=1", fact_name(w.ops[0]), fact_name(w.ops[0]));
                 let nofact = format!("{}=false|{}=0", fact_name(w.ops[0]), fact_name(w.ops[0]));
                 for r in &rs {
@@ -279,6 +281,7 @@ fn fact_name(op: TOp) -> &'static str {
         TOp::TryUniqueW => "try_unique",
         TOp::IsUniqueGetMutW => "is_unique_get_mut",
         TOp::WithArcMutW => "with_arc_mut_get_mut",
+        TOp::DepWriteW => "dep_write",
         _ => "?",
     }
 }
@@ -337,7 +340,7 @@ fn run_set(set: &ProgSet, budget_s: f64) -> SetResult {
                 }
             }
             bridge::sync_tid();
-            let plain = kinds.iter().any(|k| matches!(k, Kind::N | Kind::TN));
+            let plain = kinds.iter().any(|k| matches!(k, Kind::N | Kind::TN | Kind::MS));
             let out = final_oracle(id, block, plain);
             EXECS.fetch_add(1, Ordering::Relaxed);
             let sig = bridge::SIG.with(|s| {
